@@ -11,9 +11,9 @@ U = ["k", "a", "b", "r", "rr", "x", "y", "items", "a b"]
 SM_PALETTES = [gamma.FLOAT_INF, gamma.FLOAT_BIG, gamma.STR_SHORT, gamma.STR_FIXED, gamma.STR_ASTRAL, gamma.DATE,
                gamma.DATETIME, gamma.OBJ_INT, gamma.INT_SMALL, gamma.TIMEDELTA]
 FOCUS = {
-    "C02": ["filter", "filter_out", "slice", "slice_off", "head", "tail", "drop_na", "unique"],
-    "C03": ["sort"],
-    "C04": ["gmodify", "group_by"],
+    "C02": ["filter", "filter_out", "slice", "slice_off", "head", "tail", "drop_na", "unique", "unique", "group_by"],
+    "C03": ["sort", "sort", "sort", "group_by"],
+    "C04": ["gmodify", "group_by", "count", "split", "aggregate"],
     "C05": ["left", "inner", "semi", "anti", "full"],
     "C09": ["select", "unselect", "rename", "modify", "rbind", "cbind", "update", "colnames", "gmodify", "group_by"],
 }
@@ -121,6 +121,19 @@ class Session:
             new = getattr(d, op)(a["n"])
         elif op in ("drop_na", "unique"):
             new = getattr(d, op)(*a["cols"])
+        elif op == "ctor":
+            v = P.value(e["col"][0]) if (len(e["col"]) == 1 and e.get("scalar")) else P.vector(e["col"], typed=True)
+            new = di.DataFrame(d, **{e["name"]: v})
+        elif op in ("count", "split", "aggregate", "render"):
+            new = None
+            if op == "count":
+                d.count(*e["cols"])
+            elif op == "split":
+                d.split(*e["cols"])
+            elif op == "aggregate":
+                d.aggregate(n=lambda x: x.nrow)
+            else:
+                str(d)
         elif op == "sort":
             new = d.sort(**dict(zip(a["keys"], a["dirs"])))
         elif op in ("select", "unselect"):
@@ -200,7 +213,7 @@ def random_event(rng, s, pal, focus=None):
     op = rng.choice(focus) if (focus and rng.random() < 0.55) else rng.choice(ALL_OPS + ["filter", "filter_out", "slice", "slice_off", "head", "tail", "drop_na", "unique", "sort", "select",
                      "unselect", "rename", "modify", "rbind", "cbind", "update", "left", "inner", "semi", "anti", "full",
                      "deepcopy", "copy", "copy", "setitem", "setitem", "setitem", "setcol", "setcol", "delitem", "delattr", "pop",
-                     "colnames", "group_by", "group_by", "poke", "poke", "poke"])
+                     "colnames", "group_by", "group_by", "poke", "poke", "poke", "ctor", "count", "split", "aggregate", "render"])
     e = {"op": op, "x": x}
     if op == "gmodify":
         grouped = [h + 1 for h, fr in enumerate(s.frames) if fr._group_colnames and safe_nrow(fr) >= 1]
@@ -232,6 +245,19 @@ def random_event(rng, s, pal, focus=None):
         e["a"] = {"op": op, "n": rng.randint(0, n + 1)}
     elif op in ("drop_na", "unique"):
         e["a"] = {"op": op, "cols": pick(rng.randint(1, 2))}
+        if op == "unique" and rng.random() < 0.4:
+            e["a"]["cols"] = []              # unique() without names: all columns
+    elif op == "ctor":
+        ln = rng.choice([1, 1, n, n, n + 1, 2])
+        e.update({"name": rng.choice(cols + ["x", "y"]) if cols else "x", "col": rand_cells(rng, ln, pal), "scalar": rng.random() < 0.5})
+    elif op in ("count", "split"):
+        e["cols"] = pick(rng.randint(1, 2))
+    elif op == "aggregate":
+        grouped = [h + 1 for h, fr in enumerate(s.frames) if fr._group_colnames]
+        if grouped:
+            e["x"] = rng.choice(grouped)
+        else:
+            e["op"] = "render"
     elif op == "sort":
         ks = pick(rng.randint(1, 2))
         e["a"] = {"op": op, "keys": ks, "dirs": [rng.choice([1, 1, -1]) for _ in ks]}
@@ -273,6 +299,9 @@ def random_event(rng, s, pal, focus=None):
         e["names"] = pool[:len(cols)]
     elif op == "group_by":
         e["cols"] = pick(rng.randint(0, 2))
+        keyish = [c for c in cols if c not in ("r", "rr")]
+        if keyish and rng.random() < 0.7:      # row-id columns make every group a single row: mostly group by the others
+            e["cols"] = rng.sample(keyish, min(len(keyish), rng.randint(1, 2)))
     elif op == "poke":
         if pal is gamma.STR_FIXED or not cols or n == 0:
             e["op"] = "copy"
@@ -301,8 +330,14 @@ def _plausible(s, e):
     a = e.get("a", {})
     if op in ("filter", "filter_out"):
         return bool(cols)
-    if op in ("drop_na", "unique"):
+    if op == "drop_na":
         return bool(a["cols"])
+    if op == "unique":
+        return bool(cols)
+    if op in ("count", "split"):
+        return bool(e["cols"])
+    if op == "aggregate":
+        return bool(d._group_colnames) and all(c in cols for c in d._group_colnames)
     if op == "sort":
         return bool(a["keys"]) and all(dd == 1 or not any(gamma.is_missing(v) for v in np.asarray(d[k]).tolist())
                                        for k, dd in zip(a["keys"], a["dirs"]))
@@ -382,11 +417,12 @@ def random_trace(rng, nsteps, focus=None):
         # a grouped receiver is the interesting history for group-sensitive internals: follow a group_by
         # half of the time with a transforming call (joins first) on the frame that was just grouped
         if last_grouped is not None and rng.random() < 0.5:
-            e2 = random_event(rng, s, pal)
+            wanted = set(focus) - {"group_by"} if focus else {"full", "left", "inner", "semi", "anti", "rbind", "cbind", "update", "sort", "unique", "filter"}
+            e2 = random_event(rng, s, pal, focus)
             for _try in range(12):
-                if e2["op"] in ("full", "left", "inner", "semi", "anti", "rbind", "cbind", "update", "sort", "unique", "filter"):
+                if e2["op"] in wanted:
                     break
-                e2 = random_event(rng, s, pal)
+                e2 = random_event(rng, s, pal, focus)
             e2["x"] = last_grouped
             if e2["op"] in ("filter", "filter_out"):
                 e2["a"]["mask"] = [rng.random() < 0.5 for _ in range(safe_nrow(s.frames[last_grouped - 1]))]
